@@ -677,6 +677,8 @@ class Injector:
         order = list(CARRIERS)
         first = self.i(0, len(order) - 1)
         order = order[first:] + order[:first]
+        if self.mod.tagdefault == "AUTOMATIC" and g[0] == "CONTEXT" and g[1] <= 4 and self.i(0, 2) == 0:
+            order = ["auto-ref"] + order           # a collision that exists only through automatic tags of a referenced type
         node = node_at(self.mod, path)
         for how in order:
             new = self.carrier(how, g, node.members[vic].type)
@@ -1188,7 +1190,7 @@ def main(argv):
         "valid modules, never injected",
         "modules use only constructs the rest of the framework compiles (built-in types, SEQUENCE/SET/CHOICE/OF, references, "
         "ENUMERATED, OPTIONAL/DEFAULT); a rejection by asn1c for any other reason is reported as ERROR, not as a verdict"])
-    n = a.modules or chk.pick(8000, 64000)
+    n = a.modules or chk.pick(8000, 48000)
     t1 = time.time()
     runner.regression_and_probes(chk, replay_case)
     # probes of classes assumed known through the test-only override
@@ -1228,6 +1230,8 @@ def main(argv):
     t1 = time.time()
     runner.confirm(chk, replay_case)
     chk.extra_coverage["confirm_s"] = round(time.time() - t1, 1)
+    if a.modules:        # shortened run asked for on the command line: scale the minimum with it
+        return chk.finish(min(chk.pick(1500, 60000), a.modules // 2), min(chk.pick(800, 20000), a.modules // 4))
     return chk.finish(chk.pick(1500, 60000), chk.pick(800, 20000))
 
 
